@@ -881,7 +881,7 @@ def exec (md : Module) (ins : Instr) (orc : Oracle) : M Unit := do
     pushAddr (← alloc (.int v))
   | .ENUMTYPE_RECORD_TO_INT => do
     let rv ← getVecRef (← rdAddr sp)
-    if rv == 0 then raise 8   -- (the C code lacks the `return` here and goes on to read cell 0)
+    if rv == 0 then raise 8 else   -- (the `return` was added by fix 2bbdc72; the pinned code fell through into cell 0)
     let ia ← getVec rv 0
     let a ← getInt ia
     wrSlot sp (.addr (← alloc (.int a)))
